@@ -60,6 +60,14 @@ CHECKS = {
          "score is replayed into the real metric class (compute_from_obs_fcst) with every aggregator.",
     technique="TLA+ spec (Metrics.tla, Aggregators.tla, Expr.tla) model-checked with TLC; expected scores emitted as exact expression trees and replayed into verif.metric",
     ref="6/C05"),
+ "C06": dict(
+    text="Metrics.tla defines the 2x2 table of a pair sequence through Events.tla and the 25 categorical scores as exact rationals "
+         "(log-based ones as expression trees) with explicit undefined cases; TLC checks counts-sum, Swap, Complement, PerfectTable and "
+         "[0,1] bounds on every table with total <= 8 (quick) / 14 (thorough) and on every pair vector of length <= 2-3 over values "
+         "below/at/between/at/above the thresholds and missing x 8 bin types; each case is replayed into compute_from_abcd, "
+         "_compute_abcd and compute_from_obs_fcst (undefined must be NaN, never infinite).",
+    technique="TLA+ spec (Metrics.tla Table/Cat) model-checked with TLC; all small tables and pair vectors replayed into verif.metric.Contingency classes",
+    ref="6/C06"),
  "C18": dict(
     text="DataImpl.tla models Data.get_scores as the code has it (heap of mutable arrays, per-input field cache handed out without "
          "copying, request cache, observation sharing by aliasing, in-place propagation and -obsrange); TLC checks that it refines "
